@@ -71,6 +71,8 @@ struct ResetRun : NodeEnv {
     int apply(const Op &o, int sl) {
         const std::string &k = o.k; int rc = 0; w.cur = sl; CO_NODE *n = w.N(sl);
         if (k == "tick") w.tick(sl, (uint64_t)o.arg(0));
+        else if (k == "sendfail") { w.s[sl].sendFail = (int)(o.arg(0) % 4); cov.hit("F5-can-send-failure"); }                                  // the next n frames are refused by the CAN driver
+        else if (k == "lag") { int n = (int)(o.arg(0) % 6) + 1; for (int i = 0; i < n; i++) w.isr(sl); w.process(sl); cov.hit("F13-deferred-processing"); }   // n ticks served, processed late in one go
         else if (k == "frame") { Frame f((uint32_t)o.arg(0), (uint8_t)o.arg(1, 8), o.b); if (f.id == 0x600) f.id = 0x600u + n->NodeId; /* SDO requests follow the node id (LSS may have changed it) */ w.rx(sl, f); w.canproc(sl); cov.frames_in++; }
         else if (k == "emcy") { if (o.arg(0)) COEmcySet(&n->Emcy, (uint8_t)(o.arg(1) % 3), nullptr); else COEmcyClr(&n->Emcy, (uint8_t)(o.arg(1) % 3)); }
         else if (k == "trig") { if (o.arg(0) == 0) COTPdoTrigPdo(n->TPdo, (uint16_t)(o.arg(1) & 1)); else rc = (int)CODictWrByte(&n->Dict, CO_DEV(0x2100, 4), (uint8_t)o.arg(1)); }
@@ -86,6 +88,7 @@ struct ResetRun : NodeEnv {
     void op(const Op &o) {
         if (!split) {
             if (o.k == "reset") {
+                w.s[0].sendFail = 0;      // fault switches are harness state: none is pending across the reset
                 size_t mk = w.mark(); w.rx(0, Frame(0, 2, {(uint8_t)(o.arg(0) ? 129 : 130), 0})); w.canproc(0);
                 if (CONmtGetMode(&w.N(0)->Nmt) != CO_PREOP) { cov.hit("reset-ignored-in-this-state"); return; }    // e.g. node was stopped by CONodeStop / INIT
                 split = true; size_t mk2 = w.mark(); makeB(); nontrivial = true; cov.hit(o.arg(0) ? "reset-node" : "reset-communication");
@@ -165,7 +168,7 @@ static void gen_traffic(Rng &r, std::vector<Op> &ops, bool probe) {
     else if (c == 36) ops.push_back(Op("csdoreq", {(int64_t)r.below(2), (int64_t)r.below(20), (int64_t)r.below(50)}));
     else if (c == 37) { if (!probe) ops.push_back(Op("apptmr", {(int64_t)r.chance(2, 3), (int64_t)r.below(30), (int64_t)r.below(30)})); else ops.push_back(Op("read")); }
     else if (c == 38) ops.push_back(Op("frame", {0x589, 8}, {r.pick<uint8_t>({0x60, 0x43, 0x80, 0x41, 0x00}), 0x00, 0x20, 1, 1, 2, 3, 4}));     // answer of the remote SDO server
-    else ops.push_back(Op("read"));
+    else ops.push_back(r.chance(1, 2) ? Op("read") : r.chance(1, 2) ? Op("sendfail", {r.range(1, 3)}) : Op("lag", {(int64_t)r.below(6)}));
     if (!ops.empty() && ops.back().k == "nmt_placeholder") { ops.pop_back(); ops.push_back(Op("frame", {0, 2}, {r.pick<uint8_t>({1, 1, 1, 2, 128}), 0})); }
 }
 Plan gen_reset(Rng &r, bool thorough) {
